@@ -66,6 +66,9 @@ copy the demo in and run it (must pass); apply patch.diff; go build ./... in the
 with the demo skipped (go test -count=1 -skip '<run>' <package>) — must pass; run the demo (must FAIL). Reset the worktree
 between the two changes (each patch is against pristine HEAD, independent of the other). Leave the worktree clean at the end.
 
+While you read the code: if you notice behaviour of the UNCHANGED tree that already looks like a violation of the property
+(you can show an input / sequence for it), do not use it for your changes, but describe it in 3 lines at the end of your report.
+
 Report back only: for each change one line (files touched, mechanism), and whether every verification step gave the expected
 result. If you could only produce one solid change, say so — one solid change beats two weak ones.
 """
